@@ -97,7 +97,9 @@ class Runner:
         self.sibling_files = set()
 
     def viol(self, sig, msg):
-        self.acc.violation(sig, msg, {"params": self.params, "ops": self.trace[-45:]})
+        self.acc.violation(sig, msg, {"params": self.params, "ops": self.trace[-45:],
+                                      "relative_path": getattr(self, "relative_path", False),
+                                      "previous_array_at_this_path": getattr(self, "prev_params", None)})
 
     def listing_ok(self, d, base, n, chunk):
         allowed = {base + "_meta"} | {f"{base}_{k}" for k in range(math.ceil(n / chunk))} | self.sibling_files
@@ -122,14 +124,23 @@ class Runner:
             return False
         return True
 
-    def run(self, params, ops_count, rng, from_list=False):
+    def run(self, params, ops_count, rng, from_list=False, _reuse=None):
         SP, acc = self.SP, self.acc
         n, isz, chunk = params["n"], params["item_size"], params["chunk"]
         self.params = params
         self.trace = []
-        d = self.ctx.tmpdir("arr")
         base = "a"
-        path = os.path.join(d, base)
+        if _reuse is None:
+            d = self.ctx.tmpdir("arr")
+            path = os.path.join(d, base)
+            self.prev_params = None
+            # half of the arrays are addressed by a path RELATIVE to the working directory
+            self.relative_path = rng.random() < 0.5
+            if self.relative_path:
+                path = os.path.relpath(path)
+                acc.count("arrays_addressed_by_a_relative_path")
+        else:
+            d, path = _reuse
         model = Model(n, isz)
         try:
             if from_list:
@@ -179,11 +190,11 @@ class Runner:
                     ok_so_far = False
                     break
             op = rng.choices(["get", "set", "getslice", "setslice", "del", "delslice", "clear", "iter", "in", "len",
-                              "reopen", "closed_ops", "setslice_gen_fail", "iter_live", "with_failing"],
-                             [22, 22, 9, 12, 5, 4, 1, 4, 5, 3, 7, 2, 4, 3, 2])[0]
+                              "reopen", "closed_ops", "setslice_gen_fail", "iter_live", "with_failing", "reopen_elsewhere"],
+                             [22, 22, 9, 12, 5, 4, 1, 4, 5, 3, 7, 2, 4, 3, 2, 0.02])[0]
             try:
                 ok_so_far = self.apply(op, arr, model, rng, path) and ok_so_far
-                if op in ("reopen", "closed_ops", "with_failing"):
+                if op in ("reopen", "closed_ops", "with_failing", "reopen_elsewhere"):
                     arr = self.arr  # replaced
             except Fail:
                 ok_so_far = False
@@ -218,6 +229,32 @@ class Runner:
                 pass
         self.listing_ok(d, base, n, chunk)
         import shutil
+        if ok_so_far and _reuse is None and rng.random() < 0.25:
+            # the array is released (its files deleted) and ANOTHER array with another geometry is created under the same
+            # path in the same process: nothing of the dead array may survive in it, also not after close and reopen
+            try:
+                a = SP.open(path)
+                a.release()
+                for f in self.sibling_files:          # the sibling array's files are the harness's to remove
+                    try:
+                        os.unlink(os.path.join(d, f))
+                    except OSError:
+                        pass
+                left = os.listdir(d)
+            except Exception as e:
+                self.viol(f"array:release-raised:{exc_site(e)}", f"{type(e).__name__}: {e}")
+                shutil.rmtree(d, ignore_errors=True)
+                return
+            if left:
+                self.viol("array:release-left-files", f"release() left {sorted(left)[:4]} behind")
+                shutil.rmtree(d, ignore_errors=True)
+                return
+            acc.count("paths_reused_for_an_array_of_another_geometry")
+            self.prev_params = dict(params)
+            p2 = {"n": rng.choice([x for x in (1, 2, 3, 5, 8, 13, n + 1, max(1, n - 1), 2 * n) if x != n]),
+                  "item_size": rng.choice([x for x in range(1, 10) if x != isz]), "chunk": rng.randint(1, 7)}
+            self.run(p2, max(6, ops_count // 2), rng, from_list=rng.random() < 0.3, _reuse=(d, path))
+            return
         shutil.rmtree(d, ignore_errors=True)
 
     def expect(self, kind, fn, exc_types, arr, model, label):
@@ -498,6 +535,43 @@ class Runner:
                 raise Fail()
             if not self.full_compare(arr2, model, "after-failing-with-block"):
                 raise Fail()
+        elif op == "reopen_elsewhere":
+            # closed here, read completely by ANOTHER interpreter process (another hash seed, another working directory
+            # when the path is absolute), opened again here
+            import subprocess
+            import sys
+            self.trace.append(["close+open", "read-by-another-process"])
+            arr.close()
+            code = ("import sys, pickle; sys.path.insert(0, sys.argv[2]); "
+                    "from data_persistence.persistent_array import SPFLBArray as SP; a = SP.open(sys.argv[1]); "
+                    "out = (len(a), a.item_size, a[:]); a.close(); sys.stdout.buffer.write(pickle.dumps(out))")
+            try:
+                r = subprocess.run([sys.executable, "-B", "-c", code, path, os.environ.get("VERIF_REPO", "/repo")],
+                                   capture_output=True, timeout=60,
+                                   env=dict(os.environ, PYTHONHASHSEED=str(rng.randrange(1, 2 ** 31))))
+            except subprocess.TimeoutExpired:
+                r = None
+                acc.count("reopen_elsewhere.timeouts")
+            if r is not None:
+                acc.count("arrays_read_by_another_process")
+                if r.returncode != 0:
+                    self.viol("array:cannot-be-opened-by-another-process",
+                              "an array closed by this process cannot be opened by a fresh interpreter: "
+                              + r.stderr.decode(errors="replace").strip().splitlines()[-1][:200])
+                    raise Fail()
+                import pickle as _p
+                ln, sz, items = _p.loads(r.stdout)
+                if ln != n or sz != isz or items != model.items:
+                    self.viol("array:state-diverged:read-by-another-process",
+                              f"another process reads length {ln}, item size {sz} and "
+                              f"{sum(1 for a, b in zip(items, model.items) if a != b)} differing items")
+                    raise Fail()
+            try:
+                self.arr = self.SP.open(path)
+            except Exception as e:
+                self.viol(f"array:reopen-raised:{exc_site(e)}", f"{type(e).__name__}: {e}")
+                raise Fail()
+            acc.count("reopens")
         elif op == "reopen":
             self.trace.append(["close+open"])
             try:
@@ -643,6 +717,17 @@ def replay(case, acc, ctx):
     n, isz, chunk = params["n"], params["item_size"], params["chunk"]
     d = ctx.tmpdir("replay")
     path = os.path.join(d, "a")
+    if case.get("relative_path"):
+        path = os.path.relpath(path)
+    prev = case.get("previous_array_at_this_path")
+    if prev:
+        # an earlier array with another geometry lived at this path in this process: created, reopened, released
+        a0 = SP.create(path, item_size=prev["item_size"], array_len=prev["n"], item_num_in_one_file=prev["chunk"])
+        a0.close()
+        a0 = SP.open(path)
+        a0.close()
+        a0 = SP.open(path)
+        a0.release()
     model = Model(n, isz)
     arr = None
 
@@ -782,6 +867,10 @@ def finish(m, tier, seed):
         inc.append(f"only {c.get('failing_ops', 0)} failing operations injected")
     if c.get("reopens", 0) < 50:
         inc.append("fewer than 50 close+open cycles")
+    if c.get("arrays_read_by_another_process", 0) < 20:
+        inc.append(f"only {c.get('arrays_read_by_another_process', 0)} arrays were read by another interpreter process")
+    if c.get("paths_reused_for_an_array_of_another_geometry", 0) < 200 or c.get("arrays_addressed_by_a_relative_path", 0) < 200:
+        inc.append("too few paths reused for another geometry / too few relative paths")
     if c.get("failing.setslice-mid-failure", 0) < 30:
         inc.append("slice-assignment failures in the middle not reached often enough")
     if c.get("closed_ops_checked", 0) < 100:
